@@ -85,6 +85,10 @@ pub enum Shape {
     PermOnPrivateFilledLater,
     /// Merkle path verification with private sibling data
     Mmcs,
+    /// two public inputs merged by `connect` (one slot, two public rows), used by an ALU op
+    MergedPublics,
+    /// a private input connected to a public input (one slot), used by an ALU op
+    PrivateIsPublic,
 }
 
 fn build_shape(shape: &Shape) -> Result<(p3_circuit::Circuit<EF>, Vec<EF>, Vec<EF>, Vec<p3_circuit::NonPrimitiveOpId>), String> {
@@ -130,6 +134,19 @@ fn build_shape(shape: &Shape) -> Result<(p3_circuit::Circuit<EF>, Vec<EF>, Vec<E
             let _ = b.mul(s, cs[0]);
             let c = b.build().map_err(|e| format!("{e:?}"))?;
             Ok((c, vec![EF::from_u64(9)], vec![EF::from_u64(1), EF::from_u64(2), EF::from_u64(3), EF::from_u64(4)], vec![]))
+        }
+        Shape::MergedPublics | Shape::PrivateIsPublic => {
+            let mut b: CircuitBuilder<EF> = U::builder(BuilderOpts::default());
+            let x = b.public_input();
+            let merged_pub = matches!(shape, Shape::MergedPublics);
+            let y = if merged_pub { b.public_input() } else { b.alloc_private_input("y") };
+            b.connect(x, y);
+            let z = b.public_input();
+            let s1 = b.add(x, z);
+            let _ = b.mul(s1, y);
+            let c = b.build().map_err(|e| format!("{e:?}"))?;
+            let v = EF::from_u64(21);
+            if merged_pub { Ok((c, vec![v, v, EF::from_u64(4)], vec![], vec![])) } else { Ok((c, vec![v, EF::from_u64(4)], vec![v], vec![])) }
         }
         Shape::Mmcs => {
             // a 4-leaf Merkle path check: shape M of C08 (single 4x3 matrix)
@@ -279,6 +296,8 @@ pub fn cases_for(seed: u64, idx: u64) -> Vec<(String, Shape, Plan)> {
         ("recompose_on_privates".into(), Shape::RecomposeOnPrivates),
         ("perm_on_private_filled_later".into(), Shape::PermOnPrivateFilledLater),
         ("mmcs".into(), Shape::Mmcs),
+        ("merged_publics".into(), Shape::MergedPublics),
+        ("private_is_public".into(), Shape::PrivateIsPublic),
     ];
     for k in 0..3 {
         let gcfg = GenCfg { max_calls: 25, horner: *rng.pick(&[0, 1, 2]), claim_privates: false, ..GenCfg::default() };
@@ -307,7 +326,13 @@ pub fn cases_for(seed: u64, idx: u64) -> Vec<(String, Shape, Plan)> {
     ];
     for (name, s) in &shapes {
         for p in &plans {
-            v.push((name.clone(), s.clone(), p.clone()));
+            // the merged-input shapes have their shared slot at input 0
+            let p = match (s, p) {
+                (Shape::MergedPublics | Shape::PrivateIsPublic, Plan::ConflictPublic(_)) => Plan::ConflictPublic(0),
+                (Shape::MergedPublics | Shape::PrivateIsPublic, Plan::ConflictPrivate(_)) => Plan::ConflictPrivate(0),
+                _ => p.clone(),
+            };
+            v.push((name.clone(), s.clone(), p));
         }
         if matches!(s, Shape::Mmcs) {
             for p in [Plan::PrivateDataWithheld, Plan::PrivateDataUnknownTag, Plan::PrivateDataTwice, Plan::PrivateDataWrongOp] {
@@ -540,6 +565,14 @@ fn judge(idx: u64, desc: &str, opt: &str, chk: &str, all: &[(String, String)], o
         p if p.starts_with("public_len") || p.starts_with("private_len") => Some(true),
         "privatedatawithheld" | "privatedataunknowntag" | "privatedatatwice" | "privatedatawrongop" => Some(true),
         "control" | "setpublictwicesame" => Some(false),
+        // every hand-built shape has at least one public input; setting it twice with different
+        // values is a conflict whatever consumes it
+        "setpublictwicedifferent" if !shape.starts_with("prog") => Some(true),
+        "setprivatetwicedifferent" if !shape.starts_with("prog") && shape_class != "mmcs" && shape_class != "merged_publics" => Some(true),
+        // one slot, two inputs: a value changed in either of them conflicts with the other
+        "conflict_public" | "conflict_private" if shape_class == "merged_publics" || shape_class == "private_is_public" => {
+            if plan == "conflict_private" && shape_class == "merged_publics" { None } else { Some(true) }
+        }
         _ => None,
     };
     match must_fail {
